@@ -11,7 +11,9 @@ usage: try_seed.py <PROP> <k> <worktree> [extra check ids...]
 """
 import json, os, shutil, subprocess, sys, re
 
-FLAKY = {"ops::delay::tests::shared_smoke", "ops::subscribe_on::test::thread_pool"}
+# wall-clock based tests of the crate that fail now and then on a loaded machine (pristine tree included)
+FLAKY = {"ops::delay::tests::shared_smoke", "ops::subscribe_on::test::thread_pool",
+         "ops::throttle::tests::smoke_for_throttle_time", "ops::merge_all::test::it_shall_merge_all"}
 
 def sh(cmd, cwd=None, timeout=3600):
     p = subprocess.run(cmd, shell=True, cwd=cwd, capture_output=True, text=True, timeout=timeout)
